@@ -7,6 +7,7 @@ import (
 	"flag"
 	"fmt"
 	"os"
+	"runtime/debug"
 	"sort"
 	"strings"
 	"time"
@@ -150,6 +151,8 @@ func matchKnown(ks []Known, v harness.Verdict) *Known {
 }
 
 func main() {
+	// a runaway recursion in the program under test is reported quickly
+	debug.SetMaxStack(128 << 20)
 	if len(os.Args) < 2 {
 		fmt.Fprintln(os.Stderr, "usage: worker run|replay ...")
 		os.Exit(2)
@@ -159,6 +162,8 @@ func main() {
 		run(os.Args[2:])
 	case "replay":
 		replay(os.Args[2:])
+	case "one":
+		one(os.Args[2:])
 	case "rules":
 		m := map[string]string{}
 		for id, c := range harness.Checks {
@@ -194,6 +199,7 @@ func run(args []string) {
 	knownPath := fs.String("known", "known_findings.json", "")
 	treeHash := fs.String("treehash", "", "")
 	shrinkS := fs.Float64("shrink", 30, "seconds")
+	caseTimeout := fs.Float64("casetimeout", 120, "wall-clock seconds after which a single case counts as hanging")
 	hashlog := fs.Bool("hashlog", false, "print one line per case (index, event-log hash, verdict) instead of a result")
 	fs.Parse(args)
 	ch := harness.Checks[*prop]
@@ -213,6 +219,7 @@ func run(args []string) {
 	}
 	known := loadKnown(*knownPath)
 	start := time.Now()
+	var watchdog *time.Timer
 	hashes := map[uint64]bool{}
 	for n := 0; ; n++ {
 		if *maxCases > 0 && n >= *maxCases {
@@ -222,6 +229,16 @@ func run(args []string) {
 			break
 		}
 		idx := *wk + n*(*nw)
+		if *out != "" {
+			os.WriteFile(*out+".progress", []byte(fmt.Sprint(idx)), 0666)
+		}
+		if watchdog != nil {
+			watchdog.Stop()
+		}
+		watchdog = time.AfterFunc(time.Duration(*caseTimeout*float64(time.Second)), func() {
+			fmt.Fprintf(os.Stderr, "worker: case %d does not finish within %.0fs of wall-clock time\n", idx, *caseTimeout)
+			os.Exit(97)
+		})
 		cs := mix(*seed, idx)
 		t := simrt.NewTape(cs)
 		c := harness.NewCase(*prop, *tier, t)
@@ -300,6 +317,9 @@ func run(args []string) {
 		res.Hashes = append(res.Hashes, fmt.Sprintf("%016x", h))
 	}
 	sort.Strings(res.Hashes)
+	if watchdog != nil {
+		watchdog.Stop()
+	}
 	res.WallS = time.Since(start).Seconds()
 	if !*hashlog {
 		write()
@@ -337,4 +357,29 @@ func replay(args []string) {
 			fmt.Println(l)
 		}
 	}
+}
+
+// one runs a single case (by index) in this fresh process: used to confirm
+// that a case which killed or hung a worker does so deterministically.
+func one(args []string) {
+	fs := flag.NewFlagSet("one", flag.ExitOnError)
+	prop := fs.String("prop", "", "")
+	tier := fs.String("tier", "quick", "")
+	seed := fs.Uint64("seed", 1, "")
+	idx := fs.Int("index", 0, "")
+	caseTimeout := fs.Float64("casetimeout", 60, "")
+	fs.Parse(args)
+	ch := harness.Checks[*prop]
+	if ch == nil {
+		os.Exit(2)
+	}
+	time.AfterFunc(time.Duration(*caseTimeout*float64(time.Second)), func() {
+		fmt.Fprintf(os.Stderr, "worker: case %d does not finish within %.0fs of wall-clock time\n", *idx, *caseTimeout)
+		os.Exit(97)
+	})
+	t := simrt.NewTape(mix(*seed, *idx))
+	c := harness.NewCase(*prop, *tier, t)
+	v := ch.Run(c)
+	b, _ := json.Marshal(map[string]any{"status": v.Status, "clause": v.Clause, "sig": v.Sig, "detail": v.Detail})
+	fmt.Println(string(b))
 }
